@@ -209,13 +209,14 @@ func newConcreteManifest(f *fs.Filesystem, apiClient *lfsapi.Client, operation, 
 		sshTransfer:          sshTransfer,
 	}
 
-	var tusAllowed bool
+	var tusAllowed, retryDelayConfigured bool
 	if git := apiClient.GitEnv(); git != nil {
 		if v := git.Int("lfs.transfer.maxretries", 0); v > 0 {
 			m.maxRetries = v
 		}
 		if v := git.Int("lfs.transfer.maxretrydelay", -1); v > -1 {
 			m.maxRetryDelay = v
+			retryDelayConfigured = true
 		}
 		if v := git.Int("lfs.concurrenttransfers", 0); v > 0 {
 			m.concurrentTransfers = v
@@ -231,7 +232,8 @@ func newConcreteManifest(f *fs.Filesystem, apiClient *lfsapi.Client, operation, 
 	if m.maxRetries < 1 {
 		m.maxRetries = defaultMaxRetries
 	}
-	if m.maxRetryDelay < 1 {
+	// zero is a valid setting: no delays between retries
+	if m.maxRetryDelay < 1 && !retryDelayConfigured {
 		m.maxRetryDelay = defaultMaxRetryDelay
 	}
 
